@@ -846,6 +846,8 @@ def rule_R5(ctx, repo, flow):
               "rejects duplicate names, names equal to constructor arguments, names containing `__`",
               "_check_names: tests found %s, %d raise sites (need unique, ctor-conflict, separator with one rejection each)" % (sorted(kinds), n_raise),
               ctx.loc(mod, cn))
+    from . import _c20_oracle as _orc
+    _orc.run_all(ctx, repo, rule="R5", only={"_check_names"})
     from ._c20_specs import check_names as _check_names_spec, check_names_callers as _check_names_callers
     _check_names_spec(ctx, repo, rule="R5")
     _check_names_callers(ctx, repo, rule="R5")
@@ -980,6 +982,45 @@ def _meta_exact(ctx, repo, meta, mod, gp, sp):
                       "the inner forecaster's check_is_fitted runs iff %s; expected iff a method name is given and refit is on: after "
                       "fit(refit=False); set_params(refit=True) the apply-type methods fail with an unrelated error instead of "
                       "NotFittedError (differing case %s)" % (sh(dc), wit2), tloc, witness={"history": "fit with refit=False; set_params(refit=True); predict"})
+        # every apply-type member of the tuner hands its own name to the guard (without it the refit check is skipped)
+        def _names_guard(f_, depth=2):
+            """True / False / None: the guard reached from ``f_`` receives a method name."""
+            res = None
+            for c_ in astq.calls(f_):
+                if not (isinstance(c_.func, ast.Attribute) and dotted(c_.func.value) == "self"):
+                    continue
+                if c_.func.attr == "check_is_fitted":
+                    arg = c_.args[0] if c_.args else next((k.value for k in c_.keywords if k.arg == (pname[0] if pname else "method_name")), None)
+                    good = arg is not None and not (isinstance(arg, ast.Constant) and arg.value is None)
+                    res = good if res is None else (res and good)
+                elif depth > 0 and c_.func.attr in tuner.methods and c_.func.attr != f_.name:
+                    h_ = tuner.methods[c_.func.attr]
+                    hp = astq.param_names(h_, skip_self=True)
+                    inner = [x for x in astq.calls(h_) if isinstance(x.func, ast.Attribute) and dotted(x.func.value) == "self"
+                             and x.func.attr == "check_is_fitted"]
+                    for x in inner:
+                        fwd = dotted(x.args[0]) if x.args else None
+                        if fwd in hp:
+                            b_ = astq.bind_call(h_, c_, skip_self=True) or {}
+                            arg = b_.get(fwd)
+                            good = arg is not None and not (isinstance(arg, ast.Constant) and arg.value is None)
+                            res = good if res is None else (res and good)
+                        elif x.args and not (isinstance(x.args[0], ast.Constant) and x.args[0].value is None):
+                            res = True if res is None else res
+                        else:
+                            res = False
+            return res
+        for mname_ in APPLY + ("cutoff",):
+            mfn = tuner.methods.get(mname_) or (tuner.properties.get(mname_, {}) or {}).get("getter")
+            if mfn is None:
+                continue
+            r3 = _names_guard(mfn)
+            if r3 is None:
+                continue
+            ctx.check(r3, "R4", "%s.%s:guard-names-method" % (tuner.qual, mname_), "the fitted-state guard is called with the method's name",
+                      "%s.%s reaches check_is_fitted without a method name: with refit=False the refit check is skipped and the call fails "
+                      "with an unrelated error instead of NotFittedError" % (tuner.name, mname_), ctx.loc(tuner.module, mfn),
+                      witness={"history": "fit with refit=False; %s(...)" % mname_})
         always = any(eqv(c, ("const", True))[0] for _, c in pct.marked)
         ctx.check(always, "R4", tuner.qual + ".check_is_fitted:base-guard", "the estimator's own fitted-state guard runs unconditionally",
                   "the tuner guard does not call super().check_is_fitted() on every path: an unfitted tuner passes and fails later with an "
